@@ -121,6 +121,23 @@ def run(ctx: Ctx):
                     if isinstance(n, ast.Call) and A.call_name(n) in (f"{u}.set_position", f"{u}.reset"):
                         ctx.fail(cons + "#rewind", f.loc(n), "cursor is repositioned inside the decode loop")
     ctx.note(f"decode loops found: {loops}")
+    gv = avp_mod.classes.get("AvpGrouped")
+    gg = gv.methods.get("value") if gv else None
+    ctx.inst("AvpGrouped.value:cache-after-decode")
+    if gg is None:
+        ctx.error("AvpGrouped.value not found")
+    else:
+        g2 = cfg_of(gg, effects=E)
+        caches = [n for n in g2.nodes if n.kind == "stmt" and any(
+            A.dotted(t) == "self._avps" for t in n.stores())]
+        dec = [n for n in g2.nodes if n.kind == "stmt" and any(
+            A.call_name(c) == "Avp.from_unpacker" for c in n.calls())]
+        for c in caches:
+            if any(g2.can_reach(c, d) for d in dec):
+                ctx.fail("AvpGrouped.value:cache-after-decode", g2.loc(c),
+                         "the list of decoded children is cached on the AVP before decoding has "
+                         "finished: when a child is malformed the first read raises AvpDecodeError "
+                         "but every later read silently returns the partial list")
     # nothing reachable from a decode loop body repositions an unpacker
     fu0 = model.func("message.avp.avp", "Avp.from_unpacker")
     reach = E.reachable_funcs([fu0])
